@@ -1,0 +1,31 @@
+//go:build verif
+
+package lucene
+
+import "github.com/grindlemire/go-lucene/internal/lex"
+
+// VerifEvent is one parser loop iteration as seen by the verification harness.
+type VerifEvent struct {
+	Ev      string      // accept | shift | shiftT | implAndReduce | reduce | pop
+	Next    lex.TokType // the lookahead token of this iteration
+	NextVal string
+	SL, NL  int // len(stack), len(nonTerminals) after the step
+	K       int // for pop: how many elements the current reduce attempt is looking at
+}
+
+// VerifHook, when set, receives one event per parser loop iteration (and one "pop" event per
+// reduce attempt). The first argument identifies the parser so concurrent Parse calls do not
+// share a log.
+var VerifHook func(p any, ev VerifEvent)
+
+func vtrace(p *parser, ev string, next lex.Token) {
+	if VerifHook != nil {
+		VerifHook(p, VerifEvent{Ev: ev, Next: next.Typ, NextVal: next.Val, SL: len(p.stack), NL: len(p.nonTerminals)})
+	}
+}
+
+func vpopped(p *parser, k int) {
+	if VerifHook != nil {
+		VerifHook(p, VerifEvent{Ev: "pop", SL: len(p.stack), NL: len(p.nonTerminals), K: k})
+	}
+}
